@@ -4,8 +4,9 @@
 # 2. coq_makefile + full .vo build (no -vos/-vok) under a shell timeout
 set -e
 cd "$(dirname "$0")"
-export PYTHONPATH="/repo:$(pwd)" PYTHONHASHSEED=0 PYTHONDONTWRITEBYTECODE=1
-/venv/bin/python gen/translate.py /repo coq/theories/gen > work_translate.log 2>&1 || { cat work_translate.log; echo "translator reported errors (the affected checks will report them)"; }
+REPO="${VERIF_REPO:-/repo}"
+export PYTHONPATH="$REPO:$(pwd)" PYTHONHASHSEED=0 PYTHONDONTWRITEBYTECODE=1
+/venv/bin/python gen/translate.py "$REPO" coq/theories/gen > work_translate.log 2>&1 || { cat work_translate.log; echo "translator reported errors (the affected checks will report them)"; }
 rm -f work_translate.log
 ./tools/mkcoqproject.sh
 cd coq
